@@ -107,6 +107,12 @@ fn modify_map(
         let key = keys.next().unwrap();
 
         if keys.peek().is_none() {
+            if !add_nesting && !mutable_map.contains(&key) {
+                // nothing to modify (e.g. `map.deep-remove`): leave the map untouched
+                // instead of inserting `key: null`
+                return mutable_map;
+            }
+
             let value = modify(mutable_map.get_ref(&key).cloned().unwrap_or(Value::Null));
             mutable_map.insert(key.span(span), value);
             return mutable_map;
